@@ -3,6 +3,7 @@ package main
 // E2: path rules over SSA basic blocks, call resolution helpers.
 
 import (
+	"sort"
 	"go/token"
 	"go/types"
 	"strings"
@@ -327,15 +328,18 @@ func CountEvents(fn *ssa.Function, event func(ssa.Instruction) CountSet) []PathE
 // reached without executing an instruction satisfying `barrier`.
 func ReachAvoiding(fn *ssa.Function, from ssa.Instruction, barrier, stop func(ssa.Instruction) bool) []ssa.Instruction {
 	var out []ssa.Instruction
-	seen := map[*ssa.BasicBlock]bool{}
+	// a block is visited once per way into it: a branch on a condition merged from constants
+	// (`ok := a && b; if ok`, `for running := true; running;`) is decided by the edge taken
+	type visit struct{ b, from *ssa.BasicBlock }
+	seen := map[visit]bool{}
 	var defers []*ssa.Defer
 	Instrs(fn, func(in ssa.Instruction) {
 		if d, ok := in.(*ssa.Defer); ok {
 			defers = append(defers, d)
 		}
 	})
-	var walk func(b *ssa.BasicBlock, startIdx int)
-	walk = func(b *ssa.BasicBlock, startIdx int) {
+	var walk func(b *ssa.BasicBlock, startIdx int, from *ssa.BasicBlock)
+	walk = func(b *ssa.BasicBlock, startIdx int, from *ssa.BasicBlock) {
 		for i := startIdx; i < len(b.Instrs); i++ {
 			in := b.Instrs[i]
 			if _, isDefer := in.(*ssa.Defer); isDefer {
@@ -369,24 +373,30 @@ func ReachAvoiding(fn *ssa.Function, from ssa.Instruction, barrier, stop func(ss
 				return
 			}
 		}
-		for _, s := range b.Succs {
-			if !seen[s] {
-				seen[s] = true
-				walk(s, 0)
+		succs := b.Succs
+		if iff, ok := b.Instrs[len(b.Instrs)-1].(*ssa.If); ok && len(b.Instrs) > 0 {
+			if k := decidedOnEdge(iff.Cond, b, from); k >= 0 {
+				succs = b.Succs[k : k+1]
+			}
+		}
+		for _, s := range succs {
+			if !seen[visit{s, b}] {
+				seen[visit{s, b}] = true
+				walk(s, 0, b)
 			}
 		}
 	}
 	if from == nil {
 		if len(fn.Blocks) > 0 {
-			seen[fn.Blocks[0]] = true
-			walk(fn.Blocks[0], 0)
+			seen[visit{fn.Blocks[0], nil}] = true
+			walk(fn.Blocks[0], 0, nil)
 		}
 		return out
 	}
 	b := from.Block()
 	for i, in := range b.Instrs {
 		if in == from {
-			walk(b, i+1)
+			walk(b, i+1, nil)
 			break
 		}
 	}
@@ -427,13 +437,13 @@ func FieldOf(v ssa.Value) (owner string, field string, base ssa.Value, ok bool) 
 		if st == nil {
 			return
 		}
-		return typeName(x.X.Type()), st.Field(x.Field).Name(), x.X, true
+		return typeName(x.X.Type()), st.Field(x.Field).Name(), resolveCell(x.X), true
 	case *ssa.Field:
 		st := derefStruct(x.X.Type())
 		if st == nil {
 			return
 		}
-		return typeName(x.X.Type()), st.Field(x.Field).Name(), x.X, true
+		return typeName(x.X.Type()), st.Field(x.Field).Name(), resolveCell(x.X), true
 	}
 	return
 }
@@ -466,6 +476,10 @@ func fieldPath(v ssa.Value) (root ssa.Value, path []string) {
 		switch x := v.(type) {
 		case *ssa.UnOp:
 			if x.Op == token.MUL {
+				if rv := resolveCell(x); rv != ssa.Value(x) {
+					v = rv // a captured variable read from its cell
+					continue
+				}
 				v = x.X
 				continue
 			}
@@ -888,4 +902,118 @@ func MustPass(pred func(ssa.Instruction) bool, depth int) func(ssa.Instruction) 
 		}
 	}
 	return widened(depth)
+}
+
+// calledFuncs: the module functions a call instruction can run: the static callee, or for a call
+// through a function value (method value, element of a table of functions) the callees the call
+// graph resolves, with bound-method and other synthetic wrappers looked through.
+func (p *Prog) calledFuncs(in ssa.Instruction) []*ssa.Function {
+	cc := CallOf(in)
+	if cc == nil {
+		return nil
+	}
+	var cands []*ssa.Function
+	if f := cc.StaticCallee(); f != nil {
+		cands = []*ssa.Function{f}
+	} else {
+		cands = p.callees(in)
+	}
+	var out []*ssa.Function
+	seen := map[*ssa.Function]bool{}
+	for _, f := range cands {
+		f = Unwrap(f)
+		if isModuleFn(f) && !seen[f] {
+			seen[f] = true
+			out = append(out, f)
+		}
+	}
+	sort.Slice(out, func(i, j int) bool { return out[i].Pos() < out[j].Pos() })
+	return out
+}
+
+// decidedOnEdge: cond (possibly negated) is a phi of block b whose operand on the edge from
+// block `from` is a boolean constant: returns the successor index (0 true, 1 false) that is
+// taken when b is entered that way, -1 when the edge does not decide the condition.
+func decidedOnEdge(cond ssa.Value, b, from *ssa.BasicBlock) int {
+	if from == nil {
+		return -1
+	}
+	neg := false
+	for {
+		u, ok := cond.(*ssa.UnOp)
+		if !ok || u.Op != token.NOT {
+			break
+		}
+		neg = !neg
+		cond = u.X
+	}
+	ph, ok := cond.(*ssa.Phi)
+	if !ok || ph.Block() != b {
+		return -1
+	}
+	for i, pr := range b.Preds {
+		if pr != from {
+			continue
+		}
+		if ph.Edges[i] == ssa.Value(ph) {
+			// carried unchanged around a loop: the branch taken last time is taken again, when
+			// the way in lies on one side of this very test only
+			if iff, ok := b.Instrs[len(b.Instrs)-1].(*ssa.If); ok && (iff.Cond == cond || neg) {
+				for k := 0; k < 2; k++ {
+					s := b.Succs[k]
+					if len(s.Preds) == 1 && (s == from || s.Dominates(from)) {
+						return k
+					}
+				}
+			}
+			return -1
+		}
+		c, isC := ph.Edges[i].(*ssa.Const)
+		if !isC || c.Value == nil {
+			return -1
+		}
+		val := c.Value.ExactString() == "true"
+		if neg {
+			val = !val
+		}
+		if val {
+			return 0
+		}
+		return 1
+	}
+	return -1
+}
+
+// strictLess reads a branch condition as x < y: returns x, y and the successor index on which
+// x < y holds.  Understands <, >, >=, <= (the latter two on their false side) and negation.
+func strictLess(cond ssa.Value) (x, y ssa.Value, succ int, ok bool) {
+	neg := false
+	for {
+		u, isU := cond.(*ssa.UnOp)
+		if !isU || u.Op != token.NOT {
+			break
+		}
+		neg = !neg
+		cond = u.X
+	}
+	bo, isB := cond.(*ssa.BinOp)
+	if !isB {
+		return nil, nil, 0, false
+	}
+	switch bo.Op {
+	case token.LSS:
+		x, y, succ = bo.X, bo.Y, 0
+	case token.GTR:
+		x, y, succ = bo.Y, bo.X, 0
+	case token.GEQ: // !(x >= y) is x < y
+		x, y, succ = bo.X, bo.Y, 1
+	case token.LEQ: // !(y <= x) is x < y
+		x, y, succ = bo.Y, bo.X, 1
+	default:
+		return nil, nil, 0, false
+	}
+	if neg {
+		succ = 1 - succ
+	}
+	return x, y, succ, true
 }
